@@ -22,8 +22,8 @@ GROUPS = [
     _op('grow', 'h_grow', 'H_GROW', 1, 'quick', unwind=40, timeout=900),
     _op('initialize', 'h_init', 'H_INIT', 1, 'quick', unwind=44),
     _op('dequeue', 'h_dequeue', 'H_DEQUEUE', 1, 'quick'),
-    _op('remove', 'h_remove', 'H_REMOVE', 1, 'quick'),
-    _op('reprioritize', 'h_reprio', 'H_REPRIO', 1, 'quick'),
+    _op('remove', 'h_remove', 'H_REMOVE', 1, 'quick', backend='portfolio'),
+    _op('reprioritize', 'h_reprio', 'H_REPRIO', 1, 'quick', backend='portfolio'),
     _op('queries', 'h_queries', 'H_QUERIES', 1, 'quick'),
     _op('pattern_find', 'h_pattern', 'H_PATTERN', 1, 'quick', extra=['CMV_PAT_WHICH=0']),
     _op('pattern_count', 'h_pattern', 'H_PATTERN', 1, 'quick', extra=['CMV_PAT_WHICH=1']),
